@@ -70,6 +70,19 @@ func tooLong(p string) bool { return len(p) >= PathMax }
 
 // split resolves a path lexically into segments ("/a/./b/../c" -> a, c).
 func split(p string) []string {
+	if len(p) == 0 || p[0] != '/' {
+		// the kernel takes a relative path relative to the working directory
+		// /cwd (as Abs does); the directory comes into being with its first use
+		if root.child("cwd") == nil {
+			root.kids = append(root.kids, &node{name: "cwd", dir: true})
+		}
+		return splitLex("/cwd/" + p)
+	}
+	return splitLex(p)
+}
+
+// splitLex is the purely lexical resolution (no working directory).
+func splitLex(p string) []string {
 	var segs []string
 	start := 0
 	for i := 0; i <= len(p); i++ {
@@ -561,7 +574,7 @@ func Walk(rootPath string, fn func(path string, info os.FileInfo, err error) err
 // cleanJoin mirrors filepath.Join (lexically cleaned result).
 func cleanJoin(p, name string) string {
 	out := ""
-	for _, s := range split(p + "/" + name) {
+	for _, s := range splitLex(p + "/" + name) {
 		if out != "" || (len(p) > 0 && p[0] == '/') {
 			out += "/"
 		}
